@@ -665,6 +665,7 @@ func F5File() *dsl.File {
 		{Name: "Items", Num: 3, T: dsl.Msg, Ref: "Shared", Card: dsl.Repeated, Nullable: dsl.B(false)},
 	}}
 	beta := &dsl.Message{Name: "Beta", Fields: []*dsl.Field{
+		{Name: "Stamp", Num: 7, T: dsl.Msg, Ref: "Stamp", Embed: true, Nullable: dsl.B(false)},
 		{Name: "Meta", Num: 1, T: dsl.Msg, Ref: "Shared", Nullable: dsl.B(false)},
 		{Name: "ByKey", Num: 2, T: dsl.Msg, Ref: "Shared", Card: dsl.Map},
 		f("Count", 3, dsl.Int64),
@@ -684,9 +685,12 @@ func F5File() *dsl.File {
 		msg("Tiny", 3, "Tiny"),
 	}}
 	tiny := &dsl.Message{Name: "Tiny", Fields: []*dsl.Field{f("On", 1, dsl.Bool), f("N", 2, dsl.Int32)}}
+	stamp := &dsl.Message{Name: "Stamp", Comment: " Stamp is embedded in a root and in a nested message", Fields: []*dsl.Field{
+		{Name: "Rev", Num: 1, T: dsl.Int64, Comment: " Rev counts revisions"}, f("Who", 2, dsl.String)}}
 	deep := &dsl.Message{Name: "Deep", Fields: []*dsl.Field{msg("Inner", 1, "Shared"), {Name: "Tags", Num: 2, T: dsl.String, Card: dsl.Repeated},
-		{Name: "ByName", Num: 3, T: dsl.Msg, Ref: "Tiny", Card: dsl.Map}, {Name: "Parts", Num: 4, T: dsl.Msg, Ref: "Tiny", Card: dsl.Repeated, Nullable: dsl.B(false)}}}
-	return &dsl.File{GettersOff: true, Messages: []*dsl.Message{alpha, beta, gamma, delta, shared, tiny, deep}}
+		{Name: "ByName", Num: 3, T: dsl.Msg, Ref: "Tiny", Card: dsl.Map}, {Name: "Parts", Num: 4, T: dsl.Msg, Ref: "Tiny", Card: dsl.Repeated, Nullable: dsl.B(false)},
+		{Name: "Stamp", Num: 5, T: dsl.Msg, Ref: "Stamp", Embed: true}}}
+	return &dsl.File{GettersOff: true, Messages: []*dsl.Message{alpha, beta, gamma, delta, shared, tiny, deep, stamp}}
 }
 
 // F5Roots are the selectable roots of F5File.
